@@ -29,9 +29,12 @@ import (
 	"sync"
 	"time"
 
+	"github.com/spf13/afero"
 	"github.com/yandex/pandora/core"
 	"github.com/yandex/pandora/core/aggregator/netsample"
+	"github.com/yandex/pandora/core/config"
 	"github.com/yandex/pandora/core/engine"
+	coreimport "github.com/yandex/pandora/core/import"
 	"github.com/yandex/pandora/core/schedule"
 	"github.com/yandex/pandora/lib/monitoring"
 	"go.uber.org/zap"
@@ -87,6 +90,52 @@ func (s plSched) build() core.Schedule {
 		return schedule.NewComposite(ks...)
 	}
 	panic("ctor " + s.Ctor)
+}
+
+// the schedule as it is written in a pandora config (a composite as a plain list: the
+// list -> composite hook of core/import is on the path)
+func (s plSched) confValue() interface{} {
+	m := map[string]interface{}{"type": s.Ctor}
+	switch s.Ctor {
+	case "once":
+		m["times"] = s.Times
+	case "const":
+		m["ops"], m["duration"] = s.From, s.Dur.String()
+	case "line":
+		m["from"], m["to"], m["duration"] = s.From, s.To, s.Dur.String()
+	case "step":
+		m["from"], m["to"], m["step"], m["duration"] = s.From, s.To, s.Step, s.Dur.String()
+	case "instance_step":
+		m["from"], m["to"], m["step"], m["stepduration"] = int64(s.From), int64(s.To), s.Step, s.Dur.String()
+	case "unlimited":
+		m["duration"] = s.Dur.String()
+	case "composite":
+		var l []interface{}
+		for _, k := range s.Kids {
+			l = append(l, k.confValue())
+		}
+		return l
+	}
+	return m
+}
+
+// what config decoding of the pool section gives (the part of engine.InstancePoolConfig under test)
+type plDecoded struct {
+	Startup         core.Schedule                 `config:"startup" validate:"required"`
+	RPS             func() (core.Schedule, error) `config:"rps" validate:"required"`
+	RPSPerInstance  bool                          `config:"rps-per-instance"`
+	DiscardOverflow bool                          `config:"discard_overflow"`
+}
+
+func (c plConf) decode() plDecoded {
+	var d plDecoded
+	err := config.DecodeAndValidate(map[string]interface{}{
+		"startup": c.Startup.confValue(), "rps": c.RPS.confValue(),
+		"rps-per-instance": c.Per, "discard_overflow": c.Discard}, &d)
+	if err != nil {
+		panic(fmt.Sprintf("config decode of %s / %s: %v", c.Startup, c.RPS, err))
+	}
+	return d
 }
 
 func plMrate(r float64) int { return int(r*1000 + 0.5) }
@@ -169,6 +218,19 @@ func (s plSched) minTokens() int {
 	return s.build().Left()
 }
 
+// once(0) exists as a constructor call (and inside instance_step) but not as a config (`times` min=1)
+func (s plSched) hasOnceZero() bool {
+	if s.Ctor == "once" && s.Times == 0 {
+		return true
+	}
+	for _, k := range s.Kids {
+		if k.hasOnceZero() {
+			return true
+		}
+	}
+	return false
+}
+
 func (s plSched) hasUnlimited() bool {
 	if s.Ctor == "unlimited" {
 		return true
@@ -192,6 +254,7 @@ type plConf struct {
 	ProvDelay time.Duration // pause of the provider between two items
 	Past      time.Duration // RPS schedules are started this far in the past (provokes discards); 0 = lazy start
 	Explicit  bool          // startup schedule started explicitly at its first use (else lazily by Next)
+	ViaConf   bool          // schedules, rps-per-instance and discard_overflow come out of pandora's config decoding
 	Case      int           // M2: index of the TLC-generated case, -1 otherwise
 }
 
@@ -447,10 +510,22 @@ func plRunOne(c plConf, seed int64) plResult {
 	aggr := &plAggregator{r: r}
 	var gmu sync.Mutex
 	nsched := 0
+	per, discard := c.Per, c.Discard
+	buildRPS := func() (core.Schedule, error) { return c.RPS.build(), nil }
+	startupInner := c.Startup.build()
+	if c.ViaConf {
+		dec := c.decode()
+		per, discard, startupInner = dec.RPSPerInstance, dec.DiscardOverflow, dec.Startup
+		buildRPS = dec.RPS
+	}
 	newSched := func() (core.Schedule, error) {
 		gmu.Lock()
 		defer gmu.Unlock()
-		inner := c.RPS.build()
+		inner, err := buildRPS()
+		if err != nil {
+			// recorded through Engine.Run's error; the run is then not a normal run
+			return nil, err
+		}
 		if c.Past > 0 {
 			inner.Start(time.Now().Add(-c.Past))
 		}
@@ -473,10 +548,10 @@ func plRunOne(c plConf, seed int64) plResult {
 		Provider:        prov,
 		Aggregator:      aggr,
 		NewGun:          newGun,
-		RPSPerInstance:  c.Per,
+		RPSPerInstance:  per,
 		NewRPSSchedule:  newSched,
-		StartupSchedule: &plSchedule{r: r, inner: c.Startup.build(), startup: true, expl: c.Explicit},
-		DiscardOverflow: c.Discard,
+		StartupSchedule: &plSchedule{r: r, inner: startupInner, startup: true, expl: c.Explicit},
+		DiscardOverflow: discard,
 	}
 	eng := engine.New(zap.NewNop(), m, engine.Config{Pools: []engine.InstancePoolConfig{pool}})
 	done := make(chan error, 1)
@@ -637,6 +712,7 @@ func plRandConf(rng *rand.Rand, focus string) plConf {
 	c.Per = rng.Intn(2) == 0
 	c.Discard = rng.Intn(2) == 0
 	c.Explicit = rng.Intn(2) == 0
+	c.ViaConf = rng.Intn(3) == 0
 	c.ShotMax = time.Duration(rng.Intn(4)) * time.Millisecond
 	if rng.Intn(3) == 0 {
 		c.ProvDelay = time.Duration(rng.Intn(800)) * time.Microsecond
@@ -652,6 +728,9 @@ func plRandConf(rng *rand.Rand, focus string) plConf {
 	if c.Discard && rng.Intn(3) != 0 {
 		// some tokens are already >= 2 s late when they are drawn, some are not
 		c.Past = 2*time.Second - plMs(40) + plMs(rng.Intn(80))
+	}
+	if c.Startup.hasOnceZero() || c.RPS.hasOnceZero() {
+		c.ViaConf = false
 	}
 	t := c.RPS.tokens()
 	if c.RPS.hasUnlimited() {
@@ -772,6 +851,7 @@ func poolMain(args []string) {
 	par := fs.Int("par", 6, "runs in parallel")
 	fs.Parse(args)
 	seed := vt.Seed()
+	coreimport.Import(afero.NewMemMapFs())
 	var confs []plConf
 	if *cases != "" {
 		cs := vt.ReadNDJSON(*cases)
@@ -807,8 +887,8 @@ func poolMain(args []string) {
 		w.Emit(map[string]interface{}{"run": i, "seq": 0, "ev": "conf",
 			"n": c.Startup.tokens(), "t": c.RPS.tokens(), "tmin": c.RPS.minTokens(), "a": c.A, "per": c.Per, "discard": c.Discard,
 			"sparts": c.Startup.parts(), "explicit": c.Explicit, "case": c.Case,
-			"desc": fmt.Sprintf("startup=%s rps=%s per=%v discard=%v a=%d past=%s shot<=%s provdelay=%s explicit=%v",
-				c.Startup, c.RPS, c.Per, c.Discard, c.A, c.Past, c.ShotMax, c.ProvDelay, c.Explicit)})
+			"desc": fmt.Sprintf("startup=%s rps=%s per=%v discard=%v a=%d past=%s shot<=%s provdelay=%s explicit=%v viaconf=%v",
+				c.Startup, c.RPS, c.Per, c.Discard, c.A, c.Past, c.ShotMax, c.ProvDelay, c.Explicit, c.ViaConf)})
 		for _, e := range res.evs {
 			e.Run = i
 			w.Emit(e)
